@@ -625,7 +625,7 @@ func (g *Gen) closureIsLoggingOnly(fn *ssa.Function, depth int) bool {
 
 func isNilSafeGetter(name string) bool {
 	i := strings.LastIndex(name, ".")
-	return i >= 0 && strings.HasPrefix(name[i+1:], "Get") && strings.Contains(name, "v2rpc")
+	return i >= 0 && strings.HasPrefix(name[i+1:], "Get") && (strings.Contains(name, "v2rpc") || strings.Contains(name, "etcdserverpb") || strings.Contains(name, "mvccpb"))
 }
 
 func (g *Gen) goEffects(v *ssa.Go, st State, reach string) {
@@ -944,6 +944,39 @@ func (g *Gen) pbGetter(v ssa.Value, c *ssa.CallCommon, st State) bool {
 		t := g.setVal(v, app("ite", app("=", recv.S, "0"), g.te.zero(fso), app("select", h, recv.S)))
 		g.assumeTypeInv(t, st)
 		g.assumed["protobuf getter modelled as nil-safe field read: "+trimName(f.String())] = true
+		return true
+	}
+	// oneof getter: T has an interface field whose wrapper type T_<X> carries field X
+	named, ok := pt.Elem().(*types.Named)
+	if !ok || named.Obj().Pkg() == nil {
+		return false
+	}
+	wobj := named.Obj().Pkg().Scope().Lookup(named.Obj().Name() + "_" + fname)
+	if wobj == nil {
+		return false
+	}
+	wst, ok := wobj.Type().Underlying().(*types.Struct)
+	if !ok || wst.NumFields() == 0 || wst.Field(0).Name() != fname {
+		return false
+	}
+	wptr := types.NewPointer(wobj.Type())
+	for i := 0; i < stT.NumFields(); i++ {
+		fl := stT.Field(i)
+		it, ok := fl.Type().Underlying().(*types.Interface)
+		if !ok || !types.Implements(wptr, it) {
+			continue
+		}
+		vso := g.te.sortOf(wst.Field(0).Type())
+		if vso.Name != g.te.sortOf(v.Type()).Name {
+			return false
+		}
+		ih := g.stGet(st, g.fieldHeapName(pt.Elem(), fl.Name()), &Sort{K: KRaw, Name: "(Array Int Iface)"})
+		wh := g.stGet(st, g.fieldHeapName(wobj.Type(), fname), &Sort{K: KRaw, Name: "(Array Int " + vso.Name + ")"})
+		iv := app("select", ih, recv.S)
+		is := and(not(app("=", recv.S, "0")), not(app("=", iv, "inil")), app("=", app("itag", iv), fmt.Sprint(g.te.tagOf(wptr))), not(app("=", app("iptr", iv), "0")))
+		t := g.setVal(v, app("ite", is, app("select", wh, app("iptr", iv)), g.te.zero(vso)))
+		g.assumeTypeInv(t, st)
+		g.assumed["protobuf oneof getter modelled from the generated code's shape: "+trimName(f.String())] = true
 		return true
 	}
 	return false
